@@ -384,9 +384,11 @@ def rule_python_side(r):
 
 
 from . import extra3 as _x3
+from . import parity as _parity
 RULES = [
     ("R-C05-convention", 11, "jitter.py spells the documented convention with proper rotations", rule_convention),
     ("R-C05-matrix", 100, "kernel rotation entries = documented inverse rotation (polynomial identity)", make_c_rule("R-C05-matrix")),
+    ("R-C05-parity", 18, "particle-frame intensity of every oriented model is invariant under q -> -q (parity typing)", _parity.rule_parity),
     ("R-C05-view-jitter", 100, "view/jitter slots in oriented kernels", make_c_rule("R-C05-view-jitter")),
     ("R-C05-cos", 18, "|cos(dtheta)| projection weight", make_c_rule("R-C05-cos")),
     ("R-C05-radial", 55, "q reaches the model as |q| or through the rotation only", make_c_rule("R-C05-radial")),
